@@ -2,7 +2,7 @@
    name.  This is what is extracted; the correspondence harness calls these
    and nothing else. *)
 From AK Require Import Base.Prelude Base.Sx Bytes.Text Bytes.FabHeader Bytes.BinFile
-  Reader.Select Reader.BoxRead Reader.Level Plotfile.TextHeader Taste.Taste Reader.ReadSpec Plotfile.Abstract Writers.Colander Writers.ColanderSpec Writers.Combine Writers.Chef Writers.Chk2plt
+  Reader.Select Reader.BoxRead Reader.Level Plotfile.TextHeader Taste.Taste Reader.ReadSpec Plotfile.Abstract Writers.Colander Writers.ColanderSpec Writers.Combine Writers.CombineSpec Writers.Chef Writers.Chk2plt
   Array.Paint Mandoline.Plate Mandoline.Slice3D Mandoline.SlicePlot Whip.Whip Pestle.Pestle Point.PointQuery Menu.Menu Paths.Posix.
 
 Definition as_Zs := as_list as_Z.
@@ -320,6 +320,25 @@ Definition e_colander_spec (s : sx) : sx :=
   | _ => bad_request
   end.
 
+(* ---- C06: the SPECIFICATION side.  request: (plotfile1 plotfile2 names1 names2), a plotfile being
+   (gheader (level ...)) -> (image of the first, image of the second, image of the combined plotfile
+   or (1) when the pure operation is undefined: different meshes, no names, unknown names, not 3D) ---- *)
+Definition dec_plotfile (s : sx) : option plotfile :=
+  match s with
+  | SL [g; lvs] => do g <- dec_gheader g; do lvs <- as_list dec_plevel lvs; Some {| pf_g := g; pf_levels := lvs |}
+  | _ => None
+  end.
+
+Definition e_combine_spec (s : sx) : sx :=
+  match s with
+  | SL [a; b; n1; n2] =>
+      req (do a <- dec_plotfile a; do b <- dec_plotfile b; do n1 <- as_Bs n1; do n2 <- as_Bs n2; Some (a, b, n1, n2))
+          (fun '(a, b, n1, n2) =>
+             ok (SL [enc_pdisk (pf_disk a); enc_pdisk (pf_disk b);
+                     of_result enc_pdisk (match combine_pure n1 n2 a b with Some pf' => Some (pf_disk pf') | None => None end)]))
+  | _ => bad_request
+  end.
+
 (* ---- C08: mandoline on 2D plotfiles ----
    request: (levels limit fidxs nx ny) -> per field the (ny, nx) array in C
    order as one byte string, then the grid levels; () where a pixel was never
@@ -547,6 +566,7 @@ Definition entries : list (string * (sx -> sx)) :=
     ("taste_all", e_taste_all);
     ("colander", e_colander);
     ("colander_spec", e_colander_spec);
+    ("combine_spec", e_combine_spec);
    ("colander_spec", e_colander_spec);
     ("plate", e_plate);
     ("whip", e_whip);
